@@ -58,6 +58,7 @@ func (v *Violation) id() string { return v.Property + "|" + v.Site + "|" + v.Rul
 type vioEntry struct {
 	v     *Violation
 	count int64
+	alts  []*Violation // a few more cases of the same class (tried when the smallest does not reproduce sequentially)
 }
 
 // Collector gathers violations from all workers, one entry per class.
@@ -92,7 +93,10 @@ func (c *Collector) add(v *Violation) {
 	}
 	e.count++
 	if caseLess(v.Case, e.v.Case) {
-		e.v = v
+		e.v, v = v, e.v
+	}
+	if len(e.alts) < 6 {
+		e.alts = append(e.alts, v)
 	}
 }
 
@@ -291,18 +295,27 @@ func (r *Run) finish() int {
 	unstable := 0
 	dupUnstable := false
 	for _, e := range fresh {
-		// re-execute 5 times: must fail identically (guards against harness nondeterminism)
-		stable := true
-		for i := 0; i < 5; i++ {
-			vs := replayCase(e.v.Property, e.v.Case)
-			found := false
-			for _, v2 := range vs {
-				if v2.id() == e.v.id() {
-					found = true
+		// re-execute 5 times: must fail identically (guards against harness nondeterminism); if the smallest case of
+		// the class does not reproduce, the other recorded cases of the class are tried
+		stable := false
+		for _, cand := range append([]*Violation{e.v}, e.alts...) {
+			ok := true
+			for i := 0; i < 5; i++ {
+				vs := replayCase(cand.Property, cand.Case)
+				found := false
+				for _, v2 := range vs {
+					if v2.id() == cand.id() {
+						found = true
+					}
+				}
+				if !found {
+					ok = false
+					break
 				}
 			}
-			if !found {
-				stable = false
+			if ok {
+				e.v = cand
+				stable = true
 				break
 			}
 		}
